@@ -210,6 +210,7 @@ func (g *vfGen) genC13() {
 		g.emit(vfOp("lines", "nd-bad", []byte(ds), len(ds)))
 		g.emit(vfOp("lines", "nd-bad", []byte(ds), len(ds)+5))
 	}
+	g.genCsvReader()
 	// records longer than 64 KiB (limit 0): in front, and followed by a damaged line
 	big := `{"k":"` + strings.Repeat("x", 70000) + `"}`
 	g.emit(vfOp("lines", "nd-ok", []byte(big+"\n{\"a\":1}\n[1,2]\n"), 0))
@@ -220,5 +221,115 @@ func (g *vfGen) genC13() {
 		for _, l := range []int{0, len(w), len(w) + 1} {
 			g.emit(vfOp("lines", "any", []byte(w), l))
 		}
+	}
+}
+
+
+// inputs aimed at the model of encoding/csv (Model/Csv.lean): quoted and lazily quoted cells, cells spanning
+// lines, comments, CR handling, lines longer than the 4096-byte bufio buffer, byte-order marks in front of a
+// table; exhaustive strings over a 7-symbol alphabet
+func (g *vfGen) genCsvReader() {
+	both := func(kind string, b []byte, lims ...int) {
+		for _, l := range lims {
+			g.emit(vfOp("lines", kind, b, l))
+		}
+	}
+	alpha := []byte{'a', ',', '"', '\n', '\r', '#', '\t'}
+	maxLen := g.pick(5, 6)
+	var rec func(cur []byte)
+	rec = func(cur []byte) {
+		both("any", cur, 0, len(cur))
+		if len(cur) == maxLen {
+			return
+		}
+		for _, a := range alpha {
+			rec(append(append([]byte{}, cur...), a))
+		}
+	}
+	rec(nil)
+	qcell := func() string {
+		switch g.intn(8) {
+		case 0:
+			return "\"" + strings.ReplaceAll(g.cell(), "\"", "\"\"") + "\""
+		case 1:
+			return "\"multi\nline, cell\""
+		case 2:
+			return "\"has \"\"quotes\"\" and, delim\tx\""
+		case 3:
+			return "la\"zy" // bare quote inside an unquoted field
+		case 4:
+			return "\"lazy\"x\"" // quote followed by text inside a quoted field
+		case 5:
+			return "\"# not a comment\n# still the cell\""
+		case 6:
+			return ""
+		}
+		return g.cell()
+	}
+	n := g.pick(150, 4000)
+	for i := 0; i < n; i++ {
+		nl := []string{"\n", "\r\n"}[g.intn(2)]
+		delim := []string{",", "\t"}[g.intn(2)]
+		cols, rows := 2+g.intn(4), 2+g.intn(5)
+		var sb strings.Builder
+		for r := 0; r < rows; r++ {
+			if g.intn(9) == 0 {
+				sb.WriteString("# comment" + nl)
+			}
+			if g.intn(12) == 0 {
+				sb.WriteString(nl)
+			}
+			c := cols
+			if g.intn(10) == 0 {
+				c += 1 - 2*g.intn(2)
+			}
+			for k := 0; k < c; k++ {
+				if k > 0 {
+					sb.WriteString(delim)
+				}
+				sb.WriteString(qcell())
+			}
+			sb.WriteString(nl)
+		}
+		t := sb.String()
+		switch g.intn(10) {
+		case 0:
+			t = strings.TrimRight(t, "\r\n")
+		case 1:
+			t = t + "\"unterminated" + delim + "x" + nl + "y" + delim + "z" + nl
+		case 2:
+			t = strings.Replace(t, nl, "\r", 1) // a bare CR is not a line break
+		case 3:
+			t = t + "\r"
+		}
+		b := []byte(t)
+		lims := []int{0, len(b), len(b) + 1, 1 + g.intn(len(b)+1), 1 + g.intn(len(b)+1)}
+		both("any", b, lims...)
+		// a byte-order mark in front of a plain table, cut at every limit past line 2
+		if i%5 == 0 {
+			p := g.table(delim, cols, rows+1, nl, false)
+			for _, bom := range [][]byte{{0xEF, 0xBB, 0xBF}, {0xFF, 0xFE}, {0xFE, 0xFF}} {
+				bt := append(append([]byte{}, bom...), p...)
+				i1 := strings.Index(p, "\n")
+				i2 := i1 + 1 + strings.Index(p[i1+1:], "\n") + 1 + len(bom)
+				kind := "csv-ok"
+				if delim == "\t" {
+					kind = "tsv-ok"
+				}
+				for l := i2; l <= len(bt)+1; l++ {
+					if g.thorough || l < i2+10 || l > len(bt)-2 || g.intn(4) == 0 {
+						g.emit(vfOp("lines", kind, bt, l))
+					}
+				}
+				g.emit(vfOp("lines", kind, bt, 0))
+			}
+		}
+	}
+	// lines longer than the pooled bufio.Reader's buffer
+	for _, w := range []int{4090, 4096, 4097, 8192, 9000} {
+		long := strings.Repeat("x", w)
+		both("any", []byte("a,b\n"+long+",c\nd,e\n"), 0, 3072, w+10)
+		both("any", []byte(long+","+long+"\n1,2\n"), 0, 2*w+3)
+		both("any", []byte("a,\""+long+"\nstill,inside\"\nc,d\n"), 0, w+20)
 	}
 }
